@@ -90,7 +90,10 @@ def check(ctx, run):
     run.analysed(ma)
     a, b = [p["name"] for p in ma.params]
     for same, tc, eq in itertools.product((0, 1), repeat=3):
-        ev = Evaluator(prog, ma, env={a: 100, b: 100 if same else 200, "doAllocationTypeChecking_": tc})
+        from .shared import detector_state
+        env_ = detector_state(prog, [] if tc else [("disableAllocationTypeChecking", [])]) if (same, eq) != (9, 9) else {}
+        env_.update({a: 100, b: 100 if same else 200})
+        ev = Evaluator(prog, ma, env=env_)
         ev.pass_object = True
         order = []
         ev.calls["TestMemoryAllocator::isOfEqualType"] = lambda o, x, eq=eq, order=order: (order.append((o, x)), eq)[1]
@@ -106,10 +109,18 @@ def check(ctx, run):
     pn_ = it.params[0]["name"]
     ok = rets in (["(SimpleString::StrCmp(this->name(), %s->name()) == 0)" % pn_], ["(SimpleString::StrCmp(name(), %s->name()) == 0)" % pn_], ["(SimpleString::StrCmp(%s->name(), name()) == 0)" % pn_])
     run.ob("R1", "allocator families are compared by name", it.site, ok, witness=rets)
-    for fn_, val in (("enableAllocationTypeChecking", "true"), ("disableAllocationTypeChecking", "false")):
-        f = prog.fn(DET + "::" + fn_)
-        a_ = [(l, render(f, r)) for l, r, n in assignments(f)]
-        run.ob("R1", "%s sets doAllocationTypeChecking_ = %s" % (fn_, val), f.site, a_ == [("doAllocationTypeChecking_", val)], witness=a_)
+    # the two switches, judged by what matchingAllocation answers afterwards (different families, same allocator not given)
+    for steps_, want in (([], 0), ([("disableAllocationTypeChecking", [])], 1), ([("disableAllocationTypeChecking", []), ("enableAllocationTypeChecking", [])], 0), ([("enableAllocationTypeChecking", [])], 0)):
+        env_ = detector_state(prog, steps_)
+        env_.update({a: 100, b: 200})
+        ev = Evaluator(prog, ma, env=env_, calls={"TestMemoryAllocator::isOfEqualType": lambda *a__: 0})
+        ev.pass_object = True
+        try:
+            ev.run_blocks(ma.entry)
+            got = getattr(ev, "ret", None)
+        except Unknown as u:
+            got = "unknown: %s" % u
+        run.ob("R1", "a new detector after %s: releasing with another allocator family %s" % ([x[0] for x in steps_] or "no switch", "matches (checking off)" if want else "is a mismatch (checking on)"), ma.site, got == want, witness={"folded": got})
 
     # ---------------- R2 ----------------------------------------------------
     gb = global_array_values(prog, "GuardBytes")
